@@ -525,6 +525,7 @@ def b_str(ex, st, fi, args, kw, line):
                                                 Or(s.at(k) == 45, And(
                                                     s.at(k) >= 48,
                                                     s.at(k) <= 57)))))
+        s.tag = ('decimal', v)      # ghost: the number this text denotes
         yield st, s
         return
     if is_str(v):
@@ -1170,6 +1171,35 @@ def _store(t):
     return n
 
 
+def _seed_first(st, o, cache, ver0):
+    """the element read as x[0] since the last write IS the first element.
+    A read made in a probe state (short-circuit evaluation) lives in the
+    read memo only and its invariant is known under the probe's guard only:
+    the first element is instantiated here (invariant unconditional) and
+    its scalar / string fields are equated with those of the memoised
+    read -- both denote the same element."""
+    e0 = cache.get((o.lid, ver0, '0'))
+    if e0 is None or not o.segs or not isinstance(o.segs[0], Many) or \
+            o.segs[0].first is not None or not isinstance(e0, Obj) or \
+            e0.meta.get('view'):
+        return
+    f = o.segs[0].mk(st)
+    if not isinstance(f, Obj):
+        return
+    for k, v in e0.fields.items():
+        w = f.fields.get(k)
+        if w is None:
+            continue
+        if sym.is_str(v) and sym.is_str(w):
+            st.assume(sym.seq_eq(sym.lift_str(v), sym.lift_str(w)))
+        elif isinstance(v, SSeq) and isinstance(w, SSeq):
+            st.assume(sym.seq_eq(v, w))
+        elif (sym.is_int(v) and sym.is_int(w)) or \
+                (sym.is_bool(v) and sym.is_bool(w)):
+            st.assume(v == w)
+    o.segs[0].first = f
+
+
 def list_method(ex, st, fi, o, name, args, kw, line):
     if name == 'append':
         hook = ex.contracts.list_append_hook
@@ -1200,13 +1230,37 @@ def list_method(ex, st, fi, o, name, args, kw, line):
         if not args:
             yield st, ex.list_pop_last(o, st, line)
         elif args[0] == 0:
+            _seed_first(st, o, st.ghost.get('$lcache', {}),
+                        len(st.writes_of(o)) - 1)
             yield st, ex.list_pop_first(o, st, line)
         elif args[0] == 1:
             n = o.length()
             ex.prove(st, 'safe:pop@%d' % line, zint(n) >= 2, line)
             st.assume(zint(n) >= 2)
+            # elements read at index 1 / 2 since the last write keep their
+            # identity: x.pop(1) returns the element read as x[1], and the
+            # element read as x[2] (exists iff len >= 3) becomes x[1]
+            ver0 = len(st.writes_of(o)) - 1
+            cache = st.ghost.get('$lcache', {})
+            e1 = cache.get((o.lid, ver0, '1'))
+            e2 = cache.get((o.lid, ver0, '2'))
+            _seed_first(st, o, cache, ver0)
             first = ex._pop(o, st, last=False)
             second = ex._pop(o, st, last=False)
+            if e1 is not None:
+                second = e1
+            if e2 is not None and len(o.segs) == 1 and \
+                    isinstance(o.segs[0], Many):
+                sg = o.segs[0]
+
+                def mk_e2(s1, e=e2):
+                    if isinstance(e, Obj):
+                        return _find_obj(s1, e.oid) or e
+                    return e
+                o.segs[:] = [
+                    Many(Ite(zint(n) >= 3, 1, 0), mk_e2, False, 'was[2]'),
+                    Many(sym.imax(zint(sg.ln) - 1, 0), sg.mk, sg.fresh,
+                         sg.label)]
             o.segs.insert(0, Single(first))
             yield st, second
         else:
